@@ -226,6 +226,11 @@ func corruptBech(r *h.Rand, s string, which int) (string, string) {
 	case 8: // substitution in the prefix
 		p := r.Intn(sep + 1)
 		return s[:p] + "X" + s[p+1:], "subprefix"
+	case 9: // the separator itself: replaced by a look-alike or dropped (the string may then contain no '1' at all)
+		if r.Intn(4) == 0 {
+			return s[:sep] + s[sep+1:], "nosep"
+		}
+		return s[:sep] + h.Pick(r, []string{"l", "I", "7", "-", "i"}) + s[sep+1:], "nosep"
 	default:
 		return s + s, "dup"
 	}
@@ -333,18 +338,18 @@ func (k *c18Keys) badLine(r *h.Rand, fl int) c18Line {
 			return c18Line{text: h.Pick(r, k.xRcps), tag: "wrongkind"}
 		}
 		base := k.validLine(r, fl)
-		t, tag := corruptBech(r, base.text, r.Intn(10))
+		t, tag := corruptBech(r, base.text, r.Intn(11))
 		return c18Line{text: t, tag: "bad-" + tag, secret: base.secret}
 	case flRcp:
 		if r.Intn(8) == 0 {
 			return c18Line{text: h.Pick(r, k.sshEd), tag: "wrongkind"}
 		}
-		t, tag := corruptBech(r, h.Pick(r, k.xRcps), r.Intn(10))
+		t, tag := corruptBech(r, h.Pick(r, k.xRcps), r.Intn(11))
 		return c18Line{text: t, tag: "bad-" + tag}
 	default:
 		switch r.Intn(8) {
 		case 0, 1:
-			t, tag := corruptBech(r, h.Pick(r, append(append([]string{}, k.xRcps...), k.plugRcps...)), r.Intn(10))
+			t, tag := corruptBech(r, h.Pick(r, append(append([]string{}, k.xRcps...), k.plugRcps...)), r.Intn(11))
 			return c18Line{text: t, tag: "bad-" + tag}
 		case 2:
 			return c18Line{text: h.Pick(r, []string{"github:someone", "AGE-SECRET-KEY-1", "ssh-dss AAAAB3NzaC1kc3M=", "ssh-ed25519", "ssh-ed25519 ", "zzzz"}), tag: "wrongkind"}
@@ -1126,7 +1131,7 @@ func runC18(cx *ctx) {
 	for _, fl := range []int{flIds, flRcp, flCliIds, flCliRcp} {
 		fl := fl
 		for rep := 0; rep < cx.n(3, 30); rep++ {
-			for which := 0; which < 10; which++ {
+			for which := 0; which < 11; which++ {
 				which := which
 				rr := r.Fork()
 				do(func() *h.Case {
